@@ -70,6 +70,8 @@ def pick_rows(rng, info, k, storable=False):
         if r['number'] in names and r['number'] not in seen:
             fixed.append(r)
             seen.add(r['number'])
+    # every triclinic setting (the centred ones share number 1 with P1)
+    fixed += [r for r in pool if r['number'] <= 2 and r not in fixed]
     rest = rng.sample(pool, min(k, len(pool)))
     return fixed + rest
 
